@@ -22,6 +22,80 @@ class CB(copyable.Copyable, copyable.RemoteCopy):
 COPYABLES = (CA, CB)
 
 
+class Basket(copyable.Copyable):
+    """pass-by-copy object whose state is computed at serialization time: fresh containers on every getStateToCopy()"""
+    typeToCopy = "verif.c01.bk"
+
+    def __init__(self, items, extra=None):
+        self._items = set(items)
+        self._extra = extra
+
+    def __repr__(self):
+        return "Basket(%r, %r)" % (sorted(self._items), self._extra)
+
+    def getStateToCopy(self):
+        d = {"items": sorted(self._items), "count": {x: 1 for x in self._items}, "distinct": set(self._items)}
+        if self._extra is not None:
+            d["extra"] = [self._extra]
+        return d
+
+
+class RemoteBasket(copyable.RemoteCopy, copyable.Copyable):      # can be sent back (echo) with its plain state
+    typeToCopy = copytype = "verif.c01.bk"         # storage's RootUnslicer limits every index STRING to 13 bytes
+
+
+class Point(object):
+    """third-party class, copied through a registerCopier adapter (state built by the adapter)"""
+
+    def __init__(self, x, y):
+        self.x, self.y = x, y
+
+    def __repr__(self):
+        return "Point(%r, %r)" % (self.x, self.y)
+
+
+def _copy_point(p):
+    return "verif.c01.pt", {"xy": [p.x, p.y], "as_tuple": (p.x, p.y)}
+
+
+copyable.registerCopier(Point, _copy_point)
+
+
+class RemotePoint(copyable.RemoteCopy, copyable.Copyable):
+    typeToCopy = copytype = "verif.c01.pt"
+
+
+KEEP = []      # objects created while a case is canonicalised / compared: pinned so that id() stays unique
+
+
+def as_copyable(x):
+    """the ICopyable view of a sent object (None if it is not pass-by-copy)"""
+    if isinstance(x, copyable.Copyable):
+        return x
+    if isinstance(x, (Point,)):
+        a = copyable.ICopyable(x, None)
+        KEEP.append(a)
+        return a
+    return None
+
+
+def copy_state(x):
+    """(type name, [(attrname, value)]) of a sent Copyable (fresh getStateToCopy(), pinned) or a received RemoteCopy"""
+    c = as_copyable(x)
+    if c is not None:
+        st = c.getStateToCopy()
+        KEEP.append(st)
+        KEEP.extend(st.values())
+        return c.getTypeToCopy(), list(st.items())
+    if isinstance(x, copyable.RemoteCopy):
+        return x.copytype, list(x.__dict__.items())
+    return None
+
+
+def is_copy(x):
+    return isinstance(x, (copyable.Copyable, copyable.RemoteCopy, Point))
+
+
 class Scope:
     """a scoped sequence as the canonical DFS sees it (call / arguments / answer)"""
 
@@ -115,7 +189,7 @@ def gen_graph(rng, nnodes, tier_k=64):
         return atom(rng, tier_k, hashable)
 
     for i in range(nnodes):
-        k = rng.choice(["list", "list", "tuple", "tuple", "dict", "dict", "set", "frozenset", "copy"])
+        k = rng.choice(["list", "list", "tuple", "tuple", "dict", "dict", "set", "frozenset", "copy", "ccopy"])
         n = rng.choice([0, 1, 1, 2, 2, 3, 4])
         if k == "list":
             nodes.append([pick() for _ in range(n)])
@@ -133,6 +207,13 @@ def gen_graph(rng, nnodes, tier_k=64):
             nodes.append(set(x for x in (pick(hashable=True, p_node=0.3) for _ in range(n)) if is_hashable(x)))
         elif k == "frozenset":
             nodes.append(frozenset(x for x in (pick(hashable=True, p_node=0.3) for _ in range(n)) if is_hashable(x)))
+        elif k == "ccopy":
+            # state computed during serialization (temporaries that die while the scope is still open)
+            if rng.random() < 0.7:
+                ex = pick() if rng.random() < 0.3 else None
+                nodes.append(Basket([rng.randrange(-5, 60) for _ in range(n)], ex))
+            else:
+                nodes.append(Point(rng.randrange(-9, 9), rng.randrange(-9, 9)))
         else:
             c = rng.choice(COPYABLES)()
             for j in range(n):
@@ -153,7 +234,7 @@ def gen_graph(rng, nnodes, tier_k=64):
             elif isinstance(nd, set) and is_hashable(tgt):
                 nd.add(tgt)
     k = rng.random()
-    if not nodes or isinstance(nodes[-1], copyable.Copyable):
+    if not nodes or is_copy(nodes[-1]):
         k = 0.0          # a pass-by-copy instance is never a top-level object (RootUnslicer.doOpen has no 'copyable')
     if k < 0.5 or not nodes:
         root = [rng.choice(nodes) if nodes else atom(rng, tier_k) for _ in range(rng.choice([1, 2, 3]))] + ([nodes[-1]] if nodes else [])
@@ -161,8 +242,30 @@ def gen_graph(rng, nnodes, tier_k=64):
         root = nodes[-1]
     else:
         root = rng.choice(nodes)
-        if isinstance(root, copyable.Copyable):
+        if is_copy(root):
             root = [root]
+    # tuples referenced once more after everything else has gone by (a tuple bound into a cycle is complete by then)
+    tups = [x for x in nodes if isinstance(x, tuple)]
+    if tups and rng.random() < 0.5:
+        again = [rng.choice(tups) for _ in range(rng.choice([1, 2]))]
+        pos = rng.randrange(6)
+        hashable = all(is_hashable(x) for x in again)
+        if pos == 0:
+            extra = list(again)
+        elif pos == 1:
+            extra = [{("k%d" % i): x for i, x in enumerate(again)}]
+        elif pos == 2:
+            extra = [tuple(again) + (1,)]
+        elif pos == 3:
+            c = CB(); c.late = again[0]; c.all = list(again)
+            extra = [c]
+        elif pos == 4 and hashable:
+            extra = [set(again), frozenset(again)]
+        elif pos == 5 and hashable:
+            extra = [{x: i for i, x in enumerate(again)}]
+        else:
+            extra = [list(again)]
+        root = [root] + extra
     return root
 
 
@@ -201,6 +304,7 @@ def canon_py(obj, n, scopes, depth=0):
                 return ("ref", tbl[id(obj)]), n + 1
         if scopes:
             scopes[-1][id(obj)] = n
+            KEEP.append(obj)          # the number stays bound to this very object for the rest of the case
     if t is list or t is tuple:
         kind, name, kids = ("list" if t is list else "tuple"), b"", list(obj)
     elif t is set or t is frozenset:
@@ -212,9 +316,10 @@ def canon_py(obj, n, scopes, depth=0):
         except Exception:      # as OrderedDictSlicer: keep whatever order the interrupted sort left (deterministic)
             pass
         kind, name, kids = "dict", b"", [x for k in keys for x in (k, obj[k])]
-    elif isinstance(obj, copyable.Copyable):
-        kind, name = "copy", obj.getTypeToCopy().encode("ascii")
-        kids = [x for k, v in obj.__dict__.items() for x in (k.encode("utf-8"), v)]
+    elif as_copyable(obj) is not None:
+        tname, state = copy_state(obj)
+        kind, name = "copy", tname.encode("ascii")
+        kids = [x for k, v in state for x in (k.encode("utf-8"), v)]
     elif t is Scope:
         kind, name, kids = "scope", obj.name, list(obj.children)
         scopes = scopes + [{}]
@@ -445,7 +550,7 @@ def match_term(t, obj, env, n, path="root"):
         return n + 1
     kind, name, kids = t[1], t[2], t[3]
     if kind == "copy":
-        if not isinstance(obj, copyable.RemoteCopy) or obj.copytype.encode("ascii") != name:
+        if not isinstance(obj, copyable.RemoteCopy) or (obj.copytype or "").encode("ascii") != name:
             raise Mismatch("%s: expected RemoteCopy %r, got %s" % (path, name, type(obj).__name__))
     elif type(obj) is not KIND_TYPE[kind]:
         raise Mismatch("%s: expected %s, got %s" % (path, kind, type(obj).__name__))
@@ -542,14 +647,14 @@ def children_of(x):
         return "map", list(x.items())
     if t in (set, frozenset):
         return "bag", list(x)
-    if isinstance(x, (copyable.Copyable, copyable.RemoteCopy)):
-        return "attrs", sorted(x.__dict__.items())
+    if is_copy(x):
+        return "attrs", sorted(copy_state(x)[1])
     return "atom", None
 
 
 def same_class(a, b):
-    if isinstance(a, copyable.Copyable) and isinstance(b, copyable.RemoteCopy):
-        return a.getTypeToCopy() == b.copytype
+    if is_copy(a):
+        return isinstance(b, copyable.RemoteCopy) and copy_state(a)[0] == b.copytype
     return type(a) is type(b)
 
 
@@ -571,9 +676,17 @@ def iso(a, b, fwd, bwd, on_path):
             return "aliasing invented: two %ss arrived as one object" % type(a).__name__
         fwd[id(a)] = b
         bwd[id(b)] = a
-    elif key in on_path:
-        return None
+    elif key in on_path or ("done",) + key in fwd:
+        return None          # this very pair is being / has been compared (reached again through a shared tuple)
     on_path = on_path | {key}
+    r = iso_children(a, b, kind, kids, fwd, bwd, on_path)
+    if r is None and not isinstance(a, IDENT):
+        fwd[("done",) + key] = True
+        KEEP.append(a)
+    return r
+
+
+def iso_children(a, b, kind, kids, fwd, bwd, on_path):
     _, kb = children_of(b)
     if len(kids) != len(kb):
         return "%s of %d children arrived with %d" % (type(a).__name__, len(kids), len(kb))
